@@ -515,6 +515,8 @@ structure CHMsg where
   sv : List Nat := []
   sigAlgs : List Nat := []
   alpn : List Bytes := []
+  ems : Bool := false
+  xrand : Bytes := []
   deriving Repr, DecidableEq
 
 /-- SNI name list entries: (type, name) with non-empty names -/
@@ -659,9 +661,9 @@ def chExt (m : CHMsg) (id : Nat) (d : Bytes) (isLast : Bool) : Option CHMsg :=
     | none => none
   else if id = 0x28 then
     match wholeVec16 d with
-    | some er => if er.isEmpty then none else some m
+    | some er => if er.isEmpty then none else some { m with xrand := er }
     | none => none
-  else if id = 23 then (if d.isEmpty then some m else none)
+  else if id = 23 then (if d.isEmpty then some { m with ems := true } else none)
   else some m   -- unknown extensions are ignored (`continue`)
 
 def chExts (m : CHMsg) : List (Nat × Bytes) → Option CHMsg
@@ -735,15 +737,98 @@ structure CHLog where
   sessionTicket : Option (Nat × Bytes)   -- (Length, Value)
   sigHashes : List (Nat × Nat)
   alpn : List Bytes
+  ems : Bool
+  xrand : Bytes
   deriving Repr, DecidableEq
 
-/-- `clientHelloMsg.MakeLog` (ExtendedMasterSecret / Heartbeat / ExtendedRandom are never filled in) -/
+/-- `clientHelloMsg.MakeLog` (Heartbeat is never filled in; ExtendedMasterSecret / ExtendedRandom are copied
+    from the message since the D39 fix) -/
 def chLog (f : CHFixed) (m : CHMsg) : CHLog :=
   { version := f.vers, random := f.random, sessionID := f.sid, suites := f.suites, comps := f.comps,
     ocsp := m.ocsp, ticket := m.tick, secureReneg := m.renegSup && decide (m.reneg.length > 0),
     sni := m.sni, scts := m.scts, curves := m.curves, points := m.points, sv := m.sv,
     sessionTicket := if m.ticket.length > 0 then some (m.ticket.length, m.ticket) else none,
     sigHashes := m.sigAlgs.filterMap sigAlgLookup,
-    alpn := m.alpn }
+    alpn := m.alpn, ems := m.ems, xrand := m.xrand }
+
+/-! ### Certificate (TLS 1.3): `certificateMsgTLS13.unmarshal` (`unmarshalCertificate`) + `MakeLog` -/
+
+/-- the entry loop of `unmarshalCertificate`: `cert_data<0..2^24-1> ‖ extensions<0..2^16-1>` per entry -/
+def cert13Entries : (d : Bytes) → Option (List (Bytes × Bytes))
+  | [] => some []
+  | a :: b :: c :: rest =>
+    if a.toNat * 65536 + b.toNat * 256 + c.toNat ≤ rest.length then
+      match rest.drop (a.toNat * 65536 + b.toNat * 256 + c.toNat) with
+      | e1 :: e2 :: r2 =>
+        if u16 e1 e2 ≤ r2.length then
+          -- the remaining input `r2.drop (u16 e1 e2)`, written as a suffix of `rest`
+          match cert13Entries (rest.drop (a.toNat * 65536 + b.toNat * 256 + c.toNat + 2 + u16 e1 e2)) with
+          | none => none
+          | some l => some ((rest.take (a.toNat * 65536 + b.toNat * 256 + c.toNat), r2.take (u16 e1 e2)) :: l)
+        else none
+      | _ => none
+    else none
+  | _ => none
+termination_by d => d.length
+decreasing_by simp [List.length_drop]; omega
+
+/-- extensions of the LEAF entry (`len(certificate.Certificate) == 1`): status_request must carry a non-empty OCSP
+    response, signed_certificate_timestamp a non-empty list of non-empty SCTs; others are ignored.
+    Returns (OCSPStaple != nil, SignedCertificateTimestamps != nil). -/
+def cert13LeafExts (ocsp scts : Bool) : List (Nat × Bytes) → Option (Bool × Bool)
+  | [] => some (ocsp, scts)
+  | (id, d) :: rest =>
+    if id = 5 then
+      match d with
+      | [] => none
+      | st :: r =>
+        if st.toNat ≠ 1 then none else
+        match readVec24 r with
+        | some (staple, []) => if staple.isEmpty then none else cert13LeafExts true scts rest
+        | _ => none
+    else if id = 18 then
+      match wholeVec16 d with
+      | none => none
+      | some lst =>
+        if lst.isEmpty then none else
+        match splitVec16s lst with
+        | none => none
+        | some items => if items.any (·.isEmpty) then none else cert13LeafExts ocsp true rest
+    else cert13LeafExts ocsp scts rest
+
+structure Cert13 where
+  certs : List Bytes
+  ocsp : Bool
+  scts : Bool
+  deriving Repr, DecidableEq
+
+/-- `certificateMsgTLS13.unmarshal`: 4 header bytes skipped (the length field is not looked at), empty
+    certificate_request_context, one 24-bit list filling the rest; the extension block of EVERY entry must be
+    well-formed, only the leaf's extensions are interpreted. -/
+def parseCerts13 (msg : Bytes) : Option Cert13 :=
+  if msg.length < 4 then none else
+  match readVec8 (msg.drop 4) with
+  | some ([], r) =>
+    match readVec24 r with
+    | some (lst, []) =>
+      match cert13Entries lst with
+      | none => none
+      | some es =>
+        if es.all (fun e => (splitExts e.2).isSome) then
+          match es with
+          | [] => some ⟨[], false, false⟩
+          | (_, ex) :: _ =>
+            match splitExts ex with
+            | none => none
+            | some xs =>
+              match cert13LeafExts false false xs with
+              | none => none
+              | some (o, s) => some ⟨es.map (·.1), o, s⟩
+        else none
+    | _ => none
+  | _ => none
+
+/-- `certificateMsgTLS13.MakeLog` is the same leaf / chain split as `certificateMsg.MakeLog` -/
+def cert13Log (r : Cert13) : CertLog := certLog r.certs
 
 end ZV.C28
